@@ -188,7 +188,7 @@ GRID = {"h_borrow": _grid}
 
 def jobs(tier):
     q = tier == "quick"
-    T = 150 if q else 900
+    T = 300 if q else 900
     J = []
     NT = len(C07_APPS) + len(AGG_APPS)
     L = 3 if q else 4
